@@ -261,6 +261,17 @@ def gen_truncation(rng: common.Rng, base_spec) -> list[list[Any]]:
         lo = Fraction(round(law.icdf(rng.pick([0.1, 0.2, 0.3])) * 8), 8)
     if side in ("upper", "both"):
         hi = Fraction(round(law.icdf(rng.pick([0.7, 0.8, 0.9])) * 8), 8)
+    # boundary value of the option: a bound equal to 0.0 (a falsy number) whenever 0 is an admissible
+    # bound for the drawn side(s)
+    if rng.chance(0.6):
+        c0 = law.cdf(0.0)
+        one_sided = rng.chance(0.7)
+        if 0.02 <= c0 <= 0.5 and (lo is not None or one_sided):
+            lo = Fraction(0)
+            hi = None if one_sided else hi
+        elif 0.5 <= c0 <= 0.98 and (hi is not None or one_sided):
+            hi = Fraction(0)
+            lo = None if one_sided else lo
     if lo is not None and law.lb is not None and lo <= law.lb:
         lo = None
     if hi is not None and law.ub is not None and hi >= law.ub:
@@ -297,7 +308,7 @@ def gen_spec(rng: common.Rng, lib: str, options: bool = True, numeric_only: bool
             a = rng.pick([Fr(2), Fr(1, 2), Fr(-1), Fr(-2), Fr(3)])
             b = rng.pick([Fr(0), Fr(1), Fr(-1, 2)])
             spec["params"].append(["transformation", f"{rat(a) if a.denominator == 1 else float(a)}*x+{rat(b) if b.denominator == 1 else float(b)}"])
-        if rng.chance(0.2):
+        if rng.chance(0.3):
             spec["params"] += gen_truncation(rng, spec)
     return spec
 
